@@ -407,10 +407,7 @@ func (in *Interp) choose(n int) int {
 	}
 	if in.concreteMode {
 		v := in.nextConcrete()
-		if int(v) >= n {
-			return int(v % uint64(n))
-		}
-		return int(v)
+		return int(v % uint64(n))
 	}
 	if in.pos < len(in.dec) {
 		d := in.dec[in.pos]
